@@ -54,6 +54,8 @@ def _hf(name):
         return lambda s, seed: 7
     if name == "low2":
         return lambda s, seed: murmur3_32(s, seed) & 3
+    if name == "zero":
+        return lambda s, seed: 0
     if name == "sum5":
         return lambda s, seed: sum(map(ord, s)) % 5
     raise ValueError(name)
@@ -142,7 +144,7 @@ def check_placement(case):
         fail(["nodes-mutated"], "lookups changed the rotation: %r" % (base.nodes,))
     # (ii) every insertion order
     permuted = False
-    sub = keys if (hname != "murmur" or n <= 4) else keys[:40]
+    sub = keys if n <= 4 else keys[:60 if hname != "murmur" else 40]
     if n <= 6:
         perms = itertools.permutations(nodes)
     else:
@@ -245,7 +247,7 @@ def placement_strategy(tier):
     big = tier == "thorough"
     return st.fixed_dictionaries({
         "nodes": nodes,
-        "hash": st.sampled_from(["murmur", "murmur", "murmur", "len3", "const", "low2", "sum5"]),
+        "hash": st.sampled_from(["murmur", "murmur", "murmur", "len3", "const", "low2", "sum5", "zero"]),
         "hseed": st.sampled_from([0, 0, 0, 1, 2**31, 2**32 - 1]),
         "kseed": st.integers(0, 2**31),
         "nkeys": st.sampled_from([120, 300] if not big else [300, 1000]),
@@ -306,6 +308,8 @@ IDENT = [
     [("::1", 11211), "[::1]", "[::1]:11211", ("::1", "11211")],
     [("::1", 7), "[::1]:7"],
     [("cache.example.com", 1), "cache.example.com:1"],
+    [("Cache-A.Example.COM", 11211), "Cache-A.Example.COM", "Cache-A.Example.COM:11211"],
+    [("FE80::A", 11211), "[FE80::A]", "[FE80::A]:11211"],
     ["/tmp/p", "unix:/tmp/p", "/tmp/p"],
     ["/var/run/m.sock", "unix:/var/run/m.sock"],
 ]
@@ -314,7 +318,9 @@ IDENT = [
 def spelling_cases(tier, seed):
     # all choices of one spelling per identity for every pair/triple of identities
     for r in (1, 2, 3):
-        for ids in itertools.combinations(range(len(IDENT)), r):
+        for ci, ids in enumerate(itertools.combinations(range(len(IDENT)), r)):
+            if r == 3 and tier == "quick" and ci % 4:
+                continue
             for sp in itertools.product(*[range(1, len(IDENT[i])) for i in ids]):
                 yield {"ids": list(ids), "spell": list(sp)}
 
